@@ -13,6 +13,8 @@ import (
 	"errors"
 	"fmt"
 	"os"
+	"sync"
+	"sync/atomic"
 
 	"github.com/buzzfeed/sso/internal/pkg/singleflight"
 )
@@ -79,7 +81,7 @@ func runGeneric(r *Rng, maxCallers, nkeys int, windowP float64, script func(e *e
 		e.walk(r, maxCallers, newCaller, newAnswer, windowP)
 	}
 	if e.broken {
-		timeouts++
+		noteTimeout()
 	}
 	return emitGeneric(e)
 }
@@ -357,7 +359,7 @@ func runWrapper(w wrapWorld, e *engine, r *Rng, maxCallers int, windowP float64,
 		e.walk(r, maxCallers, newCaller, newAnswer, windowP)
 	}
 	if e.broken {
-		timeouts++
+		noteTimeout()
 	}
 	return emitWrapper(w, e)
 }
@@ -557,8 +559,26 @@ func main() {
 	r := NewRng(a.Seed)
 	var cases []Case
 
+	quiet()
+	// 0. the real-time dimension runs beside everything else (it spends its time asleep)
+	var slowWG sync.WaitGroup
+	slow := make([]Case, 2)
+	for i, mk := range []func(*Rng) Case{slowProxyCase, slowAuthCase} {
+		i, mk, rr := i, mk, r.Sub(7000+i)
+		slowWG.Add(1)
+		go func() { defer slowWG.Done(); slow[i] = mk(rr) }()
+	}
+
 	// 1. corpus: hand-written boundary schedules and the witnesses of the known findings
 	cases = append(cases, corpus(r)...)
+	slowAt := len(cases)
+
+	// 1b. providers built by the real sso-auth start-up path, for every provider type and variant
+	nPer := 6
+	if a.Tier == "thorough" {
+		nPer = 30
+	}
+	cases = append(cases, stackCases(r.Sub(8000), nPer)...)
 
 	// 2. generated schedules
 	maxCallers, nkeys := 6, 3
@@ -576,7 +596,7 @@ func main() {
 		case 3:
 			cases = append(cases, authCase(rr, 2+rr.Intn(maxCallers-1), 0.25, nil))
 		}
-		if timeouts > 3 {
+		if timeoutCount() > 3 {
 			fmt.Fprintln(os.Stderr, "c16: giving up generating further schedules after repeated time-outs (the code under test no longer makes joins visible / callers hang)")
 			break
 		}
@@ -591,7 +611,13 @@ func main() {
 			cases = append(cases, storm(r.Sub(100000+i)))
 		}
 	}
+	slowWG.Wait()
+	cases = append(cases[:slowAt], append(slow, cases[slowAt:]...)...)
 	Must(WriteShards(a.Out, "Corr_C16", cases, a.Shard))
 }
 
-var timeouts int
+// timeouts counts schedules that had to be abandoned because a step never became visible.
+var timeouts int32
+
+func noteTimeout()      { atomic.AddInt32(&timeouts, 1) }
+func timeoutCount() int { return int(atomic.LoadInt32(&timeouts)) }
